@@ -205,6 +205,20 @@ def hidden_memoized_history():
                                              "const: body constant of m2 (called by m3 through a hidden dynamic call in another module)"]
 
 
+def tuple_and_keyed_variables_history():
+    """module variables of the less common tracked shapes: a tuple (holding a list) and a dictionary with integer keys"""
+    def fn(name, kind, module, const, refs=()):
+        return {"name": name, "kind": kind, "module": module, "const": const, "default": None, "kwdefault": None, "setconst": None, "tupconst": None,
+                "sset": None, "pair": None, "nested": None, "explicit": None, "hidden": None, "shadow": None, "refs": [list(r) for r in refs]}
+
+    def mk(t, d):
+        return {"pkg": "vpk", "nodes": [{"name": "G0", "kind": "v", "module": "a", "vkind": "tuplist", "value": [t, [1, 2]]},
+                                        {"name": "G1", "kind": "v", "module": "b", "vkind": "idict", "value": {1: d, 2: 3}},
+                                        fn("h0", "p", "b", 4, [("G1", "bare")]), fn("m0", "m", "a", 10, [("G0", "bare")]), fn("m1", "m", "b", 20, [("h0", "bare")]),
+                                        fn("m2", "m", "a", 30, [("m0", "bare"), ("m1", "attr")])]}
+    return [mk(3, 5), mk(4, 5), mk(4, 6)], ["initial", "value of variable G0 (a tuple)", "value of variable G1 (a dictionary with integer keys)"]
+
+
 def header_default_history():
     """a plain helper named only in the header of its user (default value of a parameter), in a plain helper and in a
     memento function; the helper's body is edited"""
@@ -336,7 +350,7 @@ def run(tier, seed):
     terms, metas = [], []
     with C.Scratch("c01") as scratch:
         jobs = []
-        for hi in range(n_hist + 7):
+        for hi in range(n_hist + 8):
             if hi == n_hist:
                 eds, descs = concat_history()
             elif hi == n_hist + 1:
@@ -351,6 +365,8 @@ def run(tier, seed):
                 eds, descs = header_default_history()
             elif hi == n_hist + 6:
                 eds, descs = hidden_memoized_history()
+            elif hi == n_hist + 7:
+                eds, descs = tuple_and_keyed_variables_history()
             else:
                 eds, descs = make_history(rng, rng.randint(2, 4) if tier == "quick" else rng.randint(2, 6))
             how_ = rng.choice(["reload", "exec"])
@@ -385,7 +401,7 @@ def run(tier, seed):
                     ed = {"calls": calls, "version_order": ms, "how": how, "files": files, "setattrs": []}
                     if prev is not None:
                         # a pure variable edit is delivered by rebinding the module attribute
-                        changed_vars = [n for n in spec["nodes"] if n["kind"] == "v" and n["vkind"] not in ("unsupported", "mixedset", "tuplist") and vprog.node(prev, n["name"])["value"] != n["value"]]
+                        changed_vars = [n for n in spec["nodes"] if n["kind"] == "v" and n["vkind"] not in ("unsupported", "mixedset", "tuplist", "idict") and vprog.node(prev, n["name"])["value"] != n["value"]]
                         others = [n for n in spec["nodes"] if n["kind"] != "v" and n != vprog.node(prev, n["name"])]
                         newly_defined = [n for n in others if n["kind"] == "p" and vprog.node(prev, n["name"])["kind"] == "u"]
                         if changed_vars and not others:
